@@ -30,6 +30,7 @@ var namedWitnesses = map[string]interface{}{
 	"C02/return-linebreak":                        c02Case{Tree: prog(fdecl("f", blk(ir.N(ir.Return, "", nil), es(id("a"))))), Srcs: []string{"function f(){return\na}"}},
 	"C02/linebreak-incdec":                        c02Case{Tree: prog(es(id("a")), es(ir.N(ir.Unary, "++", id("b")))), Srcs: []string{"a\n++b"}},
 	"C02/template-backslash":                      c02Case{Tree: prog(ir.N(ir.Let, "a", ir.N(ir.Tpl, "\\\\")), es(id("a"))), Srcs: []string{"let a=`\\\\`;a;"}},
+	"C02/nested-postfix-then-linebreak":           c02Case{Tree: prog(es(ir.N(ir.Assign, "=", id("x"), ir.N(ir.Postfix, "++", id("a")))), es(id("b"))), Srcs: []string{"x=a++\n(b)"}},
 	"C10/eof-drift":                               c10Case{Src: []byte("")},
 	"C10/two-char-start":                          c10Case{Src: []byte("a==b")},
 	"C10/nul-is-eof":                              c10Case{Src: []byte("x\x00y")},
